@@ -907,3 +907,21 @@ func (l sliceLoop) skips(asm Assumption, must func(ssa.Instruction) bool, toRetu
 		return false
 	}})
 }
+
+// rangedSlice: the slice value a rangeindex loop iterates over (the operand of the len() in the loop's set-up).
+func rangedSlice(l sliceLoop) ssa.Value {
+	var out ssa.Value
+	for _, in := range l.head.Parent().Blocks[0].Instrs {
+		_ = in
+	}
+	// the element address in the body indexes the slice
+	for _, in := range l.start.Block().Instrs {
+		if ia, ok := in.(*ssa.IndexAddr); ok {
+			if idx, ok := ia.Index.(ssa.Instruction); ok && idx.Block() == l.head {
+				out = ia.X
+				break
+			}
+		}
+	}
+	return out
+}
